@@ -2,7 +2,7 @@
 
 from operator import attrgetter
 
-from y0.dsl import Distribution, Expression, Fraction, Probability
+from y0.dsl import Distribution, Expression, Fraction, One, Probability
 from y0.mutate.utils import Applier
 
 __all__ = ["contract", "recursive_contract"]
@@ -27,9 +27,15 @@ def contract(expression: Expression) -> Expression:
         and not expression.numerator.parents
         and not expression.denominator.parents
         and set(expression.denominator.children).issubset(expression.numerator.children)
+        # both parts have to come from the same distribution (e.g., the same population)
+        and type(expression.numerator) is type(expression.denominator)
+        and getattr(expression.numerator, "population", None)
+        == getattr(expression.denominator, "population", None)
     ):
         return expression
     children = set(expression.numerator.children).difference(expression.denominator.children)
+    if not children:
+        return One()
     parents = set(expression.numerator.children).intersection(expression.denominator.children)
     return expression.numerator._new(
         Distribution(
